@@ -112,6 +112,7 @@ UM_REAL_STUB = {
 UM_ASSUME = [
 	"the reference model (engines/um_model.py, DESIGN.md Appendix A) and reference codec (sim/refcodec.py) are the trusted base",
 	"coarse schedules in most runs: a TRXC command or a clock tick is atomic (threads switch only at blocking calls); line-level interleavings are explored by the race profiles (C03/C12/C05: um_race.py; C02/C10/C18/C05/C12: um_race2.py, DESIGN.md 9.7), where outcomes are judged against every order of the racing command and the tick",
+	"race2 profile: the clock thread is taken to forward burst by burst (what it reads for a burst it reads after the previous burst's last datagram left); an implementation that first computes all deliveries of a tick and sends them in one batch would need the per-burst version windows of engines/um_race2.py widened to the whole tick",
 	"undefined frequencies (never tuned), the status of known verbs with a wrong argument count, negative randomisation thresholds and odd trailing SETFH frequencies are don't-cares",
 	"datagrams from fake_trx towards L1 are never lost or reordered (only the L1->TRX direction is faulty)",
 ]
